@@ -5,7 +5,8 @@ Enumerates calls of every registered magic word / parser function / magic node (
 (vt/harness/c03_search.py) and applies the property's own oracle:
     the call returns a str, raises nothing, does not kill the interpreter,
     CPU <= CPU_BASE + CPU_PER_CHAR * n  and  len(output) <= OUT_BASE + OUT_PER_CHAR * n,
-    n = size of the page text plus all template texts of the call."""
+    n = size of the page text plus all template texts of the call;
+    cyclic universes (recursion family): template-call dispatches <= REC_SLACK * (recursion limit + 2) * calls in the input."""
 import collections
 import concurrent.futures
 import json
@@ -464,9 +465,27 @@ def directed_canon(tag, text, parts):
     return m.group(1).strip().upper()
 
 
+def corpus_calls(g):
+    """corpus/C03/*.json: replay objects ({"kind": "call", ...}, as written into replays/) of past failures, run first"""
+    d = os.path.join(core.VERIF, "corpus", "C03")
+    if not os.path.isdir(d):
+        return
+    for fn in sorted(os.listdir(d)):
+        if not fn.endswith(".json"):
+            continue
+        o = json.load(open(os.path.join(d, fn), encoding="utf8"))
+        r = o.get("replay", o)
+        if r.get("kind") != "call":
+            continue
+        g.add(r.get("text"), r.get("function", "CORPUS"), "directed", -1, (), lang=r.get("lang", "en"), db=r.get("db") or DB_DEFAULT,
+              pagename=r.get("pagename", PAGENAME), form="corpus", directed="corpus:" + fn, text_rle=r.get("text_rle"),
+              limit=r.get("limit"), budget=r.get("budget"), cpu_limit=r.get("cpu_limit"))
+
+
 def generate(rng, tier, src):
     info, builtins, impl, unimpl, langs = universe(src)
     g = Gen(rng, tier)
+    corpus_calls(g)
     g.directed()
     for name, canon, kind in builtins:
         g.builtin(name, canon, kind)
@@ -737,15 +756,26 @@ def run(run, src):
                  "of the dispatch table (ast of magics.py, cross-checked against dir(MagicResolver)), every magic_nodes.registry key and "
                  "every alias of an implemented magic word in the 12 siteinfo files on its own site; arguments from 9 shapes (empty, word, "
                  "small, huge, negative, decimal, exponent, path, nested call; %d concrete values); 1 argument: every value, 2: all 81 shape "
-                 "pairs (thorough: all value pairs), 3: %s; plus every #expr operator over 12x12 numeric operands, #time formats x dates, "
-                 "random #expr token strings and %d directed probes (regressions of the fixed defects, 300 KB names/arguments, deep nesting). "
-                 "distinct = distinct (site, page text, templates); non-trivial = the called name resolves to a registered function"
+                 "pairs (thorough: all value pairs), 3: %s; NUMERIC FAMILY: for every built-in name, every one of %d spellings of a number "
+                 "(integers, huge digit strings, negatives, sign/padding/underscore/hex forms, decimals, exponent forms such as 4e3 5E5 2e7 "
+                 "3E7 1e400 9e999999, inf/nan, Arabic-Indic and fullwidth digits, superscript/roman numerals) at every argument position of "
+                 "colon calls with 1..3 arguments and pipe calls with 2..3 arguments; RECURSION FAMILY: for every built-in name, cyclic "
+                 "universes A = one call of the name with x{{A}}{{A}} (quick: + one of {3 calls, mutual recursion through B, argument passing}; "
+                 "thorough: all) at every argument position 0..3 (positional with fillers 1/0/empty, as a named value 1=/#default=/k=, as a "
+                 "name ..=1; colon and pipe form), page `s {{A}} e`, recursion limit 100 (+ a sampled limit from 40..150 / thorough: 50, 75, "
+                 "150), under a budget of %d x (limit+2) x calls template-call dispatches counted at Expander.resolver; plus every #expr "
+                 "operator over 12x12 numeric operands, #time formats x dates, random #expr token strings, the corpus and %d directed probes "
+                 "(regressions of the fixed defects, 300 KB names/arguments, deep nesting). Of several failing inputs with one fingerprint the "
+                 "smallest (input size, then recursion limit) is reported. "
+                 "distinct = distinct (site, page text, templates, limit); non-trivial = the called name resolves to a registered function"
                  % (len(ALL_VALUES), "64 sampled shape triples per name" if tier == "quick" else "all 729 shape triples per name",
-                    sum(1 for c in calls if c["form"] == "directed"))),
+                    len(NUMERIC_VALUES), REC_SLACK, sum(1 for c in calls if c["form"] == "directed"))),
         "trusted": ["search oracle limits: CPU <= %.1fs + %.0e s/char, output <= %d + %d chars/char of input (calibrated on the unchanged tree)"
                     % (CPU_BASE, CPU_PER_CHAR, OUT_BASE, OUT_PER_CHAR),
                     "DictDB (mwlib's own in-memory wikidb) as the template store of the search; time.process_time as the cost measure"],
-        "assumptions": ["search: cost is measured as CPU time of one Expander construction + expandTemplates() call in a CPython 3.12 worker"],
+        "assumptions": ["search: cost is measured as CPU time of one Expander construction + expandTemplates() call in a CPython 3.12 worker",
+                        "search: the work of the recursion family is measured as the number of expander.resolver(name, args) calls (one per Template "
+                        "node evaluation, nodes.pyx:262) through a counting stand-in installed on the Expander instance by the harness"],
         "distribution": distribution,
         "coverage": {"search_exhaustive_part": "all registered names x {0,1} arguments x all %d argument values; 2 arguments x all 81 shape pairs%s"
                                                % (len(ALL_VALUES), "" if tier == "quick" else " x all value pairs; 3 arguments x all 729 shape triples")},
@@ -794,7 +824,8 @@ def replay(r, src):
         c["text"] = r["text"]
     text, db = materialize(c)
     n = input_size(text, db)
-    print("site=%s pagename=%r templates=%s" % (c["lang"], c["pagename"], {k: len(v) for k, v in db.items()}))
+    print("site=%s pagename=%r recursion_limit=%s templates=%s" % (c["lang"], c["pagename"], c.get("limit", 100),
+                                                                 {k: (v if len(v) <= 200 else "<%d chars>" % len(v)) for k, v in db.items()}))
     print("wikitext (%d chars): %s" % (len(text), short(c)))
     best = None
     for attempt in range(2):
